@@ -32,7 +32,7 @@ CHECKS = {
          "Trusted: the recording node runs the same xmodel live-read code (C01/C03 cover it independently).", "DESIGN.md §3 C18"),
  "C13": ("exploration", "producer-vs-replica differential + pool-order oracle: pools of dependent / key-sharing / oversized / timer-triggering transactions; GetUnconfirmedTx sampled 8x per pool (producer<consumer, reader<overwriter); block packed as miner.packBlock does, VerifyBlock / IsValidTx, two replicas that never saw the pool (confirm+Walk, confirm+Play) vs producer (PlayForMiner): all observables equal",
          "Runtime differential monitor over hundreds (quick) / thousands (thorough) of pools; held on what was explored; one timer-transaction defect is a known finding.",
-         "Trusted: the transcription of miner.packBlock's glue (simnode/miner.go, 40 lines; all ledger/state calls are the real ones); Go map iteration randomness is sampled, not enumerated.", "DESIGN.md §3 C13"),
+         "Blocks are assembled by the engine's real miner.packBlock / confirmBlockForMiner and received through the real Miner.ProcBlock (verif export shims, null consensus); Go map iteration randomness is sampled, not enumerated.", "DESIGN.md §3 C13"),
  "C12": ("exploration", "lock-protocol holder-table monitor on the SpinLock API under stress + free-running concurrent rounds on a real node (conflict families, selectors, concurrent Play) under the Go race detector; each round's call/return history is checked for an explaining sequential order with porcupine against the statement-level model, plus contention-refusal, selection-disjointness and quiescent-state (pool validity, conservation, canon, live==twin) auditors",
          "Runtime monitoring of real concurrent executions (hundreds of rounds quick, thousands thorough) with an offline linearizability check per round; interleavings are those the scheduler produced, not an enumeration.",
          "Trusted: porcupine v1.3.0; the statement-level model; race reports count only when both frames lie in spin_lock.go / utxo.go / utxo_cache.go / xmodel.go / state.go.", "DESIGN.md §3 C12"),
@@ -53,7 +53,7 @@ CHECKS = {
          "Trusted: the relational tiling auditor and the independent retarget / compact implementations in cmd/c16; stub ledger / contract objects.", "DESIGN.md §3 C16"),
  "C09": ("exploration", "three-way agreement monitor: random $verif kernel-contract programs (get/put/del/scan/event/resource use/nested calls/contract transfers/failures) over growing prior states on a gas-charging chain: pre-execution (no trace) -> signed transaction -> VerifyTx -> DoTx -> state delta == write set and declared outputs -> block replay; tamper oracle over schema-walk mutants of read set / write set / requests / fee / token outputs, re-signed",
          "Runtime oracle over ~1500 programs and ~700 tampered variants per quick run; held on what was explored; one nested-call rollback finding is recorded.",
-         "Trusted: Node.PreExec mirrors Chain.PreExec call by call; kernel contracts stand in for wasm/native/EVM contracts (same sandbox, bridge, verification and commit paths).", "DESIGN.md §3 C09"),
+         "Pre-execution is the engine's real Chain.PreExec (Chain built on the node's components through a verif shim); kernel contracts stand in for wasm/native/EVM contracts (same sandbox, bridge, verification and commit paths).", "DESIGN.md §3 C09"),
  "C10": ("exploration", "reference-model monitor + replay oracle on the real sandbox (XMCache): every program of <= 4 ops (get / put / del of 3 keys, 4 scans) x all 27 backing states exhaustively, random programs (<= 40 ops, 1-3 adjacent buckets + $transient, nil / empty / inverted / adjacent bounds, early stop, two open iterators, writes under an open iterator, Transfer, AddEvent, Flush, RWSet mid-execution) over an in-memory backing and over the real xmodel of simnode nodes (committed + pending $verif transactions: overwritten, deleted, re-created keys); each answer is compared with a 300-line statement model, the read / write set is audited (every influencing key with the version seen, final values, extras classified), and the same calls are re-run over XMReaderFromRWSet alone and must reproduce results and write set; a sample is also driven as a $verif contract through contract.Manager and must match the direct drive",
          "Exhaustive over the <= 4-op x 27-state box (835k programs; <= 5 ops thorough, 22M), sampled beyond; 1.0M programs per quick run.",
          "Trusted: the statement model in cmd/c10/model.go; one tolerance: for a key written while an iterator is open the state at Select time or any later one is accepted. Live keys with empty values cannot exist in the real xmodel (verifyOutputs refuses them).", "DESIGN.md §3 C10"),
